@@ -45,6 +45,12 @@ variable (me : Nat)
 @[simp] theorem next_sendRet (s : St) (b : Bool) (m : Nat) (ok : Bool) :
     next me s (.sendRet b m ok) = .ok s := rfl
 @[simp] theorem next_supArrive (s : St) (e : SupEv) : next me s (.supArrive e) = .ok s := rfl
+@[simp] theorem next_fxJoin (s : St) (g : String) : next me s (.fxJoin g) = .ok s := rfl
+@[simp] theorem next_fxReply (s : St) (k v : Nat) (b : Bool) : next me s (.fxReply k v b) = .ok s := rfl
+@[simp] theorem next_fxForget (s : St) (k : Nat) (b : Bool) : next me s (.fxForget k b) = .ok s := rfl
+@[simp] theorem next_callRet (s : St) (k : Nat) (r : CallRes) : next me s (.callRet k r) = .ok s := rfl
+@[simp] theorem next_waitRet (s : St) (w : Nat) (b : Bool) : next me s (.waitRet w b) = .ok s := rfl
+@[simp] theorem next_snap (s : St) (sn : Snap) : next me s (.snap sn) = .ok s := rfl
 @[simp] theorem next_supIs (s : St) (p : Option Nat) : next me s (.supIs p) = .ok { s with sup := p } := rfl
 @[simp] theorem next_aborted (s : St) : next me s .aborted = .ok { s with aborted := true } := rfl
 @[simp] theorem next_dropped (s : St) : next me s .dropped = .ok { s with preFailed := true } := rfl
@@ -249,6 +255,15 @@ theorem listen_sim (a : Actor) (s : St) (hid : a.id = me) (hsup : s.sup = a.sup)
                   stopTx := by simpa using hb.stopTx, kill := by simpa using hb.kill,
                   armed := by intro _; simpa using harmed, notify := by intro _; simpa using hn,
                   started := by intro _; rfl, postStop := by intro r hr; simp at hr }
+        · rename_i k q hm
+          have hm' : a.msgQ = .call k :: q := hm
+          refine ⟨{ s with startable := false }, by simp [accepts_cons], hid, rfl, Or.inr ?_⟩
+          exact { preFailed := hb.preFailed, terminal := hb.terminal,
+                  stopVal := by simpa using hb.stopVal,
+                  drain := by intro h; apply hb.drain; rw [hm']; exact List.mem_cons_of_mem _ (by simpa using h),
+                  stopTx := by simpa using hb.stopTx, kill := by simpa using hb.kill,
+                  armed := by intro _; simpa using harmed, notify := by intro _; simpa using hn,
+                  started := by intro _; rfl, postStop := by intro r hr; simp at hr }
         · rename_i q hm
           have hm' : a.msgQ = .drain :: q := hm
           refine enterPostStop_sim me _ .drained s hid ?_ harmed hn
@@ -411,6 +426,19 @@ theorem drain_core {a : Actor} {s : St} (hc : Core a s) :
     · exact Core.ofFrame hf hc ⟨hc.preFailed, hc.terminal, by rw [h1]; exact hc.stopVal, by rw [h4]; exact hc.drain,
         by rw [h2]; exact hc.stopTx, by rw [h3, hf.sup]; exact hc.kill⟩ rfl hc.postStop
 
+theorem Core.congr {a a' : Actor} {s : St} (h0 : a'.phase = a.phase) (h1 : a'.armed = a.armed)
+    (h2 : a'.notifyOnCancel = a.notifyOnCancel) (h3 : a'.stopVal = a.stopVal) (h4 : a'.msgQ = a.msgQ)
+    (h5 : a'.stopTx = a.stopTx) (h6 : a'.sigVal = a.sigVal) (h7 : a'.sup = a.sup) (hc : Core a s) : Core a' s :=
+  { preFailed := hc.preFailed, terminal := hc.terminal
+    stopVal := by rw [h3]; exact hc.stopVal
+    drain := by rw [h4]; exact hc.drain
+    stopTx := by rw [h5]; exact hc.stopTx
+    kill := by rw [h6, h7]; exact hc.kill
+    armed := by rw [h0, h1]; exact hc.armed
+    notify := by rw [h0, h2]; exact hc.notify
+    started := by rw [h0]; exact hc.started
+    postStop := by rw [h0]; exact hc.postStop }
+
 /-- Relation after the side effects of a segment. -/
 def FxRel (a0 : Actor) (s0 : St) (a : Actor) (s : St) : Prop :=
   Frame a0 a ∧ s.sup = s0.sup ∧ Core a s ∧ (KillStrong a0 s0 → KillStrong a s)
@@ -429,6 +457,25 @@ theorem runFx_sim (a : Actor) (s : St) (f : Fx) (hc : Core a s) :
   | killSelf =>
     refine ⟨_, by simp [runFx, accepts_cons], apiKill_frame a, ?_, kill_core hc, kill_killStrong⟩
     split <;> rfl
+  | joinGroup g =>
+    refine ⟨s, by simp [runFx, accepts_cons], ?_⟩
+    simp only [runFx]
+    split
+    · exact ⟨⟨rfl, rfl, rfl, rfl, rfl⟩, rfl,
+        hc.congr (by rfl) (by rfl) (by rfl) (by rfl) (by rfl) (by rfl) (by rfl) (by rfl), id⟩
+    · exact ⟨Frame.refl a, rfl, hc, id⟩
+  | reply k v =>
+    simp only [runFx]
+    split
+    · exact ⟨s, by simp [accepts_cons], ⟨rfl, rfl, rfl, rfl, rfl⟩, rfl,
+        hc.congr (by rfl) (by rfl) (by rfl) (by rfl) (by rfl) (by rfl) (by rfl) (by rfl), id⟩
+    · exact ⟨s, by simp [accepts_cons], Frame.refl a, rfl, hc, id⟩
+  | forget k =>
+    simp only [runFx]
+    split
+    · exact ⟨s, by simp [accepts_cons], ⟨rfl, rfl, rfl, rfl, rfl⟩, rfl,
+        hc.congr (by rfl) (by rfl) (by rfl) (by rfl) (by rfl) (by rfl) (by rfl) (by rfl), id⟩
+    · exact ⟨s, by simp [accepts_cons], Frame.refl a, rfl, hc, id⟩
 
 theorem runFxs_sim (fs : List Fx) (a : Actor) (s : St) (hc : Core a s) :
     Sim (next me) (FxRel a s) s (runFxs a fs) := by
@@ -444,19 +491,6 @@ theorem runFxs_sim (fs : List Fx) (a : Actor) (s : St) (hc : Core a s) :
 
 
 /-! ### a segment inside an open callback -/
-
-theorem Core.congr {a a' : Actor} {s : St} (h0 : a'.phase = a.phase) (h1 : a'.armed = a.armed)
-    (h2 : a'.notifyOnCancel = a.notifyOnCancel) (h3 : a'.stopVal = a.stopVal) (h4 : a'.msgQ = a.msgQ)
-    (h5 : a'.stopTx = a.stopTx) (h6 : a'.sigVal = a.sigVal) (h7 : a'.sup = a.sup) (hc : Core a s) : Core a' s :=
-  { preFailed := hc.preFailed, terminal := hc.terminal
-    stopVal := by rw [h3]; exact hc.stopVal
-    drain := by rw [h4]; exact hc.drain
-    stopTx := by rw [h5]; exact hc.stopTx
-    kill := by rw [h6, h7]; exact hc.kill
-    armed := by rw [h0, h1]; exact hc.armed
-    notify := by rw [h0, h2]; exact hc.notify
-    started := by rw [h0]; exact hc.started
-    postStop := by rw [h0]; exact hc.postStop }
 
 theorem runSeg_sim (a : Actor) (s : St) (cb : Cb) (sg : Seg) (k : Actor → Res → M)
     (hid : a.id = me) (hc : Core a s) (hsig : a.sigVal = false)
@@ -769,14 +803,19 @@ theorem opPoll_sim (a : Actor) (s : St) (h : Inv me a s) : Sim (next me) (Post m
   · exact ⟨s, rfl, by rw [hsup]; exact h⟩
 
 
-theorem opSpawn_sim (a : Actor) (s : St) (sup : Option Nat) (h : Inv me a s) :
-    Sim (next me) (Post me a.sup) s (opSpawn a sup) := by
+theorem opSpawn_sim (a : Actor) (s : St) (sup : Option Nat) (name : Option String) (nameFree : Bool)
+    (h : Inv me a s) : Sim (next me) (Post me a.sup) s (opSpawn a sup name nameFree) := by
   have hid := h.1
   have hsup := h.2.1
   rw [← hsup]
   unfold opSpawn
   split
   · rename_i hph
+    split
+    · refine ⟨s, ?_, by rw [hsup]; exact h⟩
+      simp only [evs_cons_ev, evs_nil]
+      rw [accepts_cons_ok _ _ (next_spawnRet_err me s .registered (by simp))]
+      rfl
     have hc := Inv.core me h (by simp [hph])
     have hse : s.startedEmitted = false := by
       cases h' : s.startedEmitted with
@@ -942,12 +981,33 @@ theorem envOp_sim (a : Actor) (s : St) (op : AOp) (h : Inv me a s) :
                   started := by simpa using hc.started, postStop := by simpa using hc.postStop }
   | kidAdd c => exact ⟨s, rfl, Post.congr (by rfl) (by rfl) (by rfl) (by rfl) (by rfl) (by rfl) (by rfl) (by rfl) (by rfl) h⟩
   | kidDel c => exact ⟨s, rfl, Post.congr (by rfl) (by rfl) (by rfl) (by rfl) (by rfl) (by rfl) (by rfl) (by rfl) (by rfl) h⟩
+  | call k =>
+    refine ⟨s, by simp [Actor.envOp, accepts_cons], ?_⟩
+    simp only [Actor.envOp, apiCall]
+    (repeat' split) <;> first
+      | exact h
+      | (refine ⟨h.1, h.2.1, ?_⟩
+         rcases h.2.2 with hd | hc
+         · exact Or.inl hd
+         · right
+           exact { preFailed := hc.preFailed, terminal := hc.terminal, stopVal := hc.stopVal,
+                   drain := by intro hd; apply hc.drain; simpa using hd,
+                   stopTx := hc.stopTx, kill := hc.kill, armed := hc.armed, notify := hc.notify,
+                   started := hc.started, postStop := hc.postStop })
+  | pollCall k =>
+    simp only [Actor.envOp]
+    split
+    · exact ⟨s, by simp [accepts_cons], Post.congr (by rfl) (by rfl) (by rfl) (by rfl) (by rfl) (by rfl) (by rfl) (by rfl) (by rfl) h⟩
+    · exact ⟨s, by simp [accepts_cons], Post.congr (by rfl) (by rfl) (by rfl) (by rfl) (by rfl) (by rfl) (by rfl) (by rfl) (by rfl) h⟩
+    · exact ⟨s, by simp [accepts_cons], h⟩
+    · exact ⟨s, rfl, h⟩
+  | pollWait w => exact ⟨s, by simp [Actor.envOp, accepts_cons], h⟩
   | _ => exact ⟨s, rfl, h⟩
 
 theorem stepCore_sim (a : Actor) (s : St) (op : AOp) (h : Inv me a s) :
     Sim (next me) (Post me a.sup) s (a.stepCore op) := by
   cases op with
-  | spawn sup => exact opSpawn_sim me a s sup h
+  | spawn sup name nameFree => exact opSpawn_sim me a s sup name nameFree h
   | pollSpawn supOk => exact opPollSpawn_sim me a s supOk h
   | dropSpawn => exact opDropSpawn_sim me a s h
   | poll => exact opPoll_sim me a s h
@@ -967,15 +1027,16 @@ theorem Core.setSup {a : Actor} {s : St} (p : Option Nat) (hc : Core a s) : Core
 theorem step_sim (a : Actor) (s : St) (op : AOp) (h : Inv me a s) :
     Sim (next me) (Inv me) s (a.step op) := by
   obtain ⟨s1, hacc, hid, hsup, hrest⟩ := stepCore_sim me a s op h
-  unfold Actor.step
-  simp only []
+  rw [step_eq]
   by_cases heq : (a.stepCore op).1.sup = a.sup
   · refine ⟨s1, ?_, hid, by rw [hsup, heq], hrest⟩
-    simp only [heq, ↓reduceIte, List.append_nil]
-    exact hacc
+    simp only [supTail, heq, ↓reduceIte, List.append_nil, evs_append]
+    rw [accepts_append _ _ hacc]
+    exact accepts_snapTail _ (next_snap me) s1 _
   · refine ⟨{ s1 with sup := (a.stepCore op).1.sup }, ?_, hid, rfl, ?_⟩
-    · simp only [heq, ↓reduceIte, evs_append]
-      rw [accepts_append _ _ hacc]; simp [accepts_cons]
+    · simp only [supTail, heq, ↓reduceIte, evs_append]
+      rw [accepts_append (s' := { s1 with sup := (a.stepCore op).1.sup }) _ _ (by rw [accepts_append _ _ hacc]; simp [accepts_cons])]
+      exact accepts_snapTail _ (next_snap me) _ _
     · rcases hrest with hd | hc
       · exact Or.inl hd
       · exact Or.inr (hc.setSup _)
